@@ -15,16 +15,20 @@ fn samedec_bin() -> PathBuf {
 }
 
 /// the receiver exactly as crates/samedec/src/main.rs builds it with default options
-fn samedec_rx(rate: u32) -> sameold::SameReceiver {
-    SameReceiverBuilder::new(rate)
-        .with_agc_gain_limits(1.0f32 / (i16::MAX as f32), 1.0 / 200.0)
+fn samedec_builder(rate: u32) -> SameReceiverBuilder {
+    let mut b = SameReceiverBuilder::new(rate);
+    b.with_agc_gain_limits(1.0f32 / (i16::MAX as f32), 1.0 / 200.0)
         .with_agc_bandwidth(0.01)
         .with_dc_blocker_length(0.38)
         .with_timing_bandwidth(0.125, 0.05)
         .with_timing_max_deviation(0.01)
         .with_squelch_power(0.10, 0.05)
-        .with_preamble_max_errors(2)
-        .build()
+        .with_preamble_max_errors(2);
+    b
+}
+
+fn samedec_rx(rate: u32) -> sameold::SameReceiver {
+    samedec_builder(rate).build()
 }
 
 pub struct Recording {
@@ -68,13 +72,16 @@ fn gen_recording_with(rng: &mut Rng, rate: u32, ntx: usize, last: Option<(u8, u8
             _ => (7, 5),
         };
         label.push_str(&format!(".h{:03b}t{:03b}", hm, tm));
-        for k in 0..3 {
+        // in the last transmission of a recording without trailer, header bursts that were not sent are not padded
+        // with silence either: the recording may end with the last burst sent (the message then depends on it)
+        let hlast = if t + 1 == ntx && tm == 0 { (0..3).rev().find(|k| hm & (4 >> k) != 0).unwrap_or(2) } else { 2 };
+        for k in 0..=hlast {
             if hm & (4 >> k) != 0 {
                 a.burst(16, &h, rng);
             } else {
                 a.silence(8.0 * (16 + h.len()) as f64 / BAUD, rng);
             }
-            if k < 2 {
+            if k < hlast {
                 a.silence(1.0, rng);
             }
         }
@@ -305,6 +312,7 @@ pub fn run_app(ctx: &Ctx) {
     let recorder = dir.join("recorder.sh");
     std::fs::write(&recorder, RECORDER).unwrap();
     let n = if ctx.tier_thorough { 400 } else { 28 };
+    let mut n_full = 0usize;
     for i in 0..n {
         let rate = *rng.pick(&[8000u32, 11025, 22050, 22050, 44100, 48000]);
         let ntx = if i < 5 { i } else { rng.range(0, 4) as usize };
@@ -437,6 +445,14 @@ pub fn run_app(ctx: &Ctx) {
             res.status.map(|c| c.to_string()).unwrap_or_else(|| if res.timed_out { "TIMEOUT".to_owned() } else { "signal".to_owned() })
         );
         out.op(&op, &imp, true);
+        // the whole-program model (Model/Program.lean: bytes -> samples -> whole-receiver model under the iterator
+        // bindings -> flush -> Waiting/Alerting) on the very bytes samedec read: same printed lines, same child ranges
+        if rec.pcm.len() <= 1_300_000 && n_full < (if ctx.tier_thorough { 80 } else { 10 }) {
+            n_full += 1;
+            let op = format!("app.full quiet={} child={} {} {}", quiet as u8, with_child as u8, crate::suites::fullrx::cfg_tokens(&samedec_builder(rate)), raw.display());
+            out.op(&op, &imp, true);
+            out.count("whole_program_model_runs");
+        }
         for (op, imp) in &env_ops {
             out.op(op, imp, true);
             out.count("env_ops");
